@@ -62,7 +62,30 @@ fn conv_case(rt: &tokio::runtime::Runtime, dir: &Path, case: &Value, n: usize) -
 	let srccov = pyramid_json(&mem.params.bbox_pyramid);
 	let mk_cp = || TilesConverterParameters::new(None, pyramid_of(o), false, o["flip"].as_u64().unwrap() == 1, o["swap"].as_u64().unwrap() == 1);
 	let mut ev = json!({"ev":"conv","id":n,"tiles":src.tiles_json(),"opts":o,"srccov":srccov,"maxlevel":4});
-	let reader = match catch(|| TilesConvertReader::new_from_reader(Box::new(src.mem_reader()), mk_cp())) {
+	// every 25th case reads its source from a REAL container file (written by the independent encoder of that format) through
+	// the real reader: "all sources" of the property. What the output has to contain is stated over the source's TILES, so
+	// `srccov` stays the hull of the tiles whatever the reader advertises.
+	let src_file: Option<std::path::PathBuf> = if n % 25 == 3 && !src.tiles.is_empty() {
+		let f = ["mbtiles", "versatiles", "pmtiles", "tar"][(n / 25) % 4];
+		let p = file_path(dir, f, "convsrc");
+		remove_path(&p);
+		let fsrc = Source { fmt: f.to_string(), tf: src.tf.clone(), tc: src.tc.clone(), tiles: src.tiles.clone(), blobs: src.blobs.clone(), by_bytes: src.by_bytes.clone() };
+		let (ok, _) = produce(rt, &json!({"origin":"indep","choices":{"partial_blocks":1,"dot_prefix":1}}), &fsrc, &p);
+		if ok { Some(p) } else { None }
+	} else {
+		None
+	};
+	ev["source_file"] = json!(src_file.as_ref().map(|p| p.extension().map(|e| e.to_string_lossy().to_string()).unwrap_or_default()).unwrap_or_default());
+	let mk_src = || -> Box<dyn TilesReaderTrait> {
+		match &src_file {
+			Some(p) => match catch(|| rt.block_on(get_reader(p.to_str().unwrap()))) {
+				Ok(Ok(r)) => r,
+				_ => Box::new(MemReader::new("unreadable", TileFormat::PBF, TileCompression::Gzip, vec![])),
+			},
+			None => Box::new(src.mem_reader()),
+		}
+	};
+	let reader = match catch(|| TilesConvertReader::new_from_reader(mk_src(), mk_cp())) {
 		Ok(Ok(r)) => r,
 		other => {
 			ev["ok"] = json!(0);
@@ -135,7 +158,7 @@ fn conv_case(rt: &tokio::runtime::Runtime, dir: &Path, case: &Value, n: usize) -
 		let path = file_path(dir, fmt, "conv");
 		remove_path(&path);
 		let p = path.to_str().unwrap().to_string();
-		let r = catch(|| rt.block_on(convert_tiles_container(Box::new(src.mem_reader()), mk_cp(), &p)));
+		let r = catch(|| rt.block_on(convert_tiles_container(mk_src(), mk_cp(), &p)));
 		if matches!(r, Ok(Ok(()))) {
 			let mut fsrc = source_of(&c);
 			fsrc.fmt = fmt.to_string();
